@@ -19,6 +19,8 @@ DEFAULT_CONSTS = {
     "AllowStatefulInBranchArm": "TRUE",
     "AllowStatefulInLambda": "FALSE",
     "AllowProjAsFeedResult": "FALSE",
+    "DelayTimes": '"std"',
+    "GlobalSet": '"none"',
 }
 
 
